@@ -5,11 +5,16 @@
    owed"), so the clauses about counts, about WHO may take a copy (only a subscriber counted by the running Send), about the
    acknowledgement barrier, serialisation and the zero-subscriber return are proved in full, for any number of Sends and
    subscribers and every schedule.  The clauses that need subscriber identities are stated on the tagged extension
-   Model/PubSubTag.v when present; otherwise they are named `_partial` with the full statement in a comment.
+   Model/PubSubTag.v (ONE subscription tracked individually) and, for "n DISTINCT subscriptions", on the indexed model
+   Model/PubSubIdx.v (EVERY subscription tracked individually): C06_every_index_is_a_tagged_run proves that whichever index one
+   looks at, its view of an indexed run is a run of the tagged model, so the symmetry step "what holds of the tagged subscription
+   holds of each subscription" is a theorem and not a meta-argument; C06_send_returns_number_of_distinct_receivers counts the
+   indices.  The C06_split_* theorems restate the count/steal clauses on the finer-grained Model/PubSubSplit.v (subscribers.Load
+   and ping.Add as separate steps, see Properties/C07.v).
    Statements only. *)
 From Coq Require Import List Arith Bool.
-From BB.Model Require Import PubSubAbs PubSubTag.
-From BB.Proofs Require PubSubAbs PubSubC06 PubSubTag.
+From BB.Model Require Import PubSubAbs PubSubTag PubSubSplit PubSubIdx.
+From BB.Proofs Require PubSubAbs PubSubC06 PubSubTag PubSubMore PubSubSplit PubSubIdx.
 Import ListNotations.
 
 (* No copy of a message is ever taken by a subscriber that the running Send did not count when it read `subscribers`
@@ -36,8 +41,8 @@ Print Assumptions C06_delivery_only_to_counted.
 (* Exact count and acknowledgement barrier: when Send is about to return n (S9), exactly n copies were taken in this round
    (ghost rcv) and the n receivers are all inside Wait; it then publishes pongN = n and (S10) returns only when each of
    them has consumed its pong (pongN = number still inside Wait).
-   "... by n DISTINCT subscriptions": the n receipts of the round are by n different subscriptions because no subscription
-   holds two receipts of one round (C06_no_duplicate below, for an arbitrary subscription). *)
+   "... by n DISTINCT subscriptions": C06_send_returns_number_of_distinct_receivers and C06_message_received_exactly_n_times
+   below, on the indexed model. *)
 Theorem C06_send_count_exact : forall senders subscribers sched,
   let s := run (init senders subscribers) sched in
   (sp s = S9 -> v s sent = v s rcv /\ v s sent = v s b1) /\
@@ -151,3 +156,166 @@ Theorem C06_standing_included_without_write_lock_refuted : exists sched,
   sp (base t) = S9 /\ v (base t) sent = 1 /\ towed t = true /\ standing (tp t) = true /\ tlog t = [].
 Proof. exact Proofs.PubSubTag.standing_included_without_wlock_refuted. Qed.
 Print Assumptions C06_standing_included_without_write_lock_refuted.
+
+(* ---- "established before the Send" without a ghost hypothesis ---------------------------------------------------------------- *)
+
+(* C06_standing_included assumes [towed t = true] (a ghost flag: "the running Send counted this subscription").  That flag is
+   derived here from the two history counters of the model: [tsub t] = value of [round] when the subscription incremented
+   `subscribers`, [round t] = number of Sends that have taken their count.  A subscription whose increment precedes the latest
+   count and which has not invoked Add(-1) WAS counted by it ... *)
+Theorem C06_established_is_counted : forall senders others sched,
+  let t := trun (tinit senders others) sched in
+  standing (tp t) = true -> tsub t < round t -> towed t = true.
+Proof. exact Proofs.PubSubMore.established_is_counted. Qed.
+Print Assumptions C06_established_is_counted.
+
+(* ... hence: every subscription established before the Send took its count (a fortiori before a Send that began later) and
+   not withdrawn when that Send is past delivery has this Send's message as its newest receipt. *)
+Theorem C06_established_included : forall senders others sched,
+  let t := trun (tinit senders others) sched in
+  (sp (base t) = S8 \/ sp (base t) = S9 \/ sp (base t) = S10) ->
+  standing (tp t) = true -> tsub t < round t ->
+  hd_error (tlog t) = Some (round t).
+Proof. exact Proofs.PubSubMore.established_included. Qed.
+Print Assumptions C06_established_included.
+
+(* The same with no ghost at all in the hypotheses, over a schedule cut in two: after [pre] the subscription is established
+   (Add(+1) returned, Add(-1) not invoked); in [post] at least one Send takes its count; at the end that Send is past delivery
+   and the subscription has still not invoked Add(-1).  Then its newest receipt is that Send's message. *)
+Theorem C06_established_before_count_included : forall senders others pre post,
+  let t1 := trun (tinit senders others) pre in
+  let t2 := trun t1 post in
+  standing (tp t1) = true ->
+  round t1 < round t2 ->
+  (sp (base t2) = S8 \/ sp (base t2) = S9 \/ sp (base t2) = S10) ->
+  standing (tp t2) = true ->
+  hd_error (tlog t2) = Some (round t2).
+Proof. exact Proofs.PubSubMore.established_before_count_included. Qed.
+Print Assumptions C06_established_before_count_included.
+
+(* During delivery every standing subscription was established before this count, and is waiting for its copy or inside Wait
+   with it. *)
+Theorem C06_established_counted_during_delivery : forall senders others sched,
+  let t := trun (tinit senders others) sched in
+  (sp (base t) = S5 \/ sp (base t) = S6 \/ sp (base t) = S7) -> standing (tp t) = true ->
+  tsub t < round t /\ (tp t = b0o \/ (tp t = b1 /\ hd_error (tlog t) = Some (round t))).
+Proof. exact Proofs.PubSubMore.established_counted_during_delivery. Qed.
+Print Assumptions C06_established_counted_during_delivery.
+
+(* The fast path is correct: when `subscribers` reads 0 nobody is subscribed — no goroutine is between its increment and its
+   decrement of `subscribers`, so a Send that returns 0 on that reading misses no standing subscription. *)
+Theorem C06_zero_subscribers_nobody_subscribed : forall s, Proofs.PubSubAbs.Inv s -> v s subs = 0 ->
+  v s u2 = 0 /\ v s b0o = 0 /\ v s b0n = 0 /\ v s b1 = 0 /\ v s n1o = 0 /\ v s n1n = 0 /\
+  v s n2ko = 0 /\ v s n2kn = 0 /\ v s n2fo = 0 /\ v s n2fn = 0.
+Proof. exact Proofs.PubSubMore.zero_subscribers_nobody_subscribed. Qed.
+Print Assumptions C06_zero_subscribers_nobody_subscribed.
+
+Theorem C06_zero_subscribers_no_standing_subscriber : forall senders subscribers sched,
+  let s := run (init senders subscribers) sched in
+  v s subs = 0 -> v s b0o = 0 /\ v s b0n = 0 /\ v s b1 = 0.
+Proof. exact Proofs.PubSubMore.zero_subscribers_nobody_subscribed_run. Qed.
+Print Assumptions C06_zero_subscribers_no_standing_subscriber.
+
+Theorem C06_zero_subscribers_not_standing : forall senders others sched,
+  let t := trun (tinit senders others) sched in
+  v (base t) subs = 0 -> standing (tp t) = false.
+Proof. exact Proofs.PubSubMore.zero_subscribers_not_standing. Qed.
+Print Assumptions C06_zero_subscribers_not_standing.
+
+(* ---- finer granularity (Model/PubSubSplit.v: subscribers.Load / ping.Add, arming Load / CAS, final Load / CAS split) -------- *)
+
+(* From the Load of `subscribers` (X4b) until the caster word is reset there is no subscribed-but-not-counted subscriber, and
+   the step "a not-counted subscriber receives" is never enabled: the count read at X4a is still exact when it is used. *)
+Theorem C06_split_delivery_only_to_counted : forall senders subscribers sched,
+  let s := xrun (xinit senders subscribers) sched in
+  Proofs.PubSubSplit.delivering (xp s) = true -> xv s b0n = 0 /\ xv s n1n = 0.
+Proof. exact Proofs.PubSubSplit.split_delivery_only_to_counted. Qed.
+Print Assumptions C06_split_delivery_only_to_counted.
+
+Theorem C06_split_uncounted_receive_never_enabled : forall senders subscribers sched,
+  xstep (xrun (xinit senders subscribers) sched) PRecvN = None.
+Proof. exact Proofs.PubSubSplit.split_uncounted_receive_never_enabled. Qed.
+Print Assumptions C06_split_uncounted_receive_never_enabled.
+
+Theorem C06_split_send_count_exact : forall senders subscribers sched,
+  let s := xrun (xinit senders subscribers) sched in
+  (xp s = X9 -> xv s sent = xv s rcv /\ xv s sent = xv s b1) /\
+  (xp s = X10 -> xv s sent = xv s rcv /\ xv s pongN = xv s b1).
+Proof. exact Proofs.PubSubSplit.split_send_count_is_receipts. Qed.
+Print Assumptions C06_split_send_count_exact.
+
+(* The Load/Add window is real: without the write lock a subscriber joins between subscribers.Load and ping.Add, the count
+   added to the caster is stale (l4 = 1, subscribers = 2) and the newcomer takes the counted subscriber's copy. *)
+Theorem C06_split_count_window_without_write_lock_refuted : exists sched,
+  let s := xrun_gen Proofs.PubSubAbs.no_wlock_flags (xinit 1 2) sched in
+  xv s steal = 1 /\ l4 s = 1 /\ xv s subs = 2.
+Proof. exact Proofs.PubSubSplit.split_count_window_without_wlock_refuted. Qed.
+Print Assumptions C06_split_count_window_without_write_lock_refuted.
+
+(* ---- n DISTINCT subscriptions: the indexed model (Model/PubSubIdx.v) ---------------------------------------------------------- *)
+
+(* THE SYMMETRY STEP AS A THEOREM.  In the indexed model every subscriber i has its own program point and receipt log.  For
+   every index i < S others, the view of an indexed run (any schedule) from i is a run of the tagged model with i as the tagged
+   subscriber and the other subscribers anonymous; the PubSubAbs counters count the indices.  Hence every C06 theorem about
+   "the tagged subscription" holds of each subscription (the C06_idx_* instances below). *)
+Theorem C06_every_index_is_a_tagged_run : forall senders others sched i, i < S others ->
+  Proofs.PubSubIdx.CountInv (nrun (ninit senders (S others)) sched) /\
+  length (nsubs (nrun (ninit senders (S others)) sched)) = S others /\
+  exists tsched, view i (nrun (ninit senders (S others)) sched) = Some (trun (tinit senders others) tsched).
+Proof. exact Proofs.PubSubIdx.every_index_is_a_tagged_run. Qed.
+Print Assumptions C06_every_index_is_a_tagged_run.
+
+(* The indexed model is the counter abstraction with names: its base runs are PubSubAbs runs, and from a state whose counters
+   count the indices every PubSubAbs step is the step of some index or of the sender. *)
+Theorem C06_indexed_run_is_abstract_run : forall sched s,
+  exists sched', nbase (nrun s sched) = run (nbase s) sched'.
+Proof. exact Proofs.PubSubIdx.indexed_base_is_abstract_run. Qed.
+Print Assumptions C06_indexed_run_is_abstract_run.
+
+Theorem C06_indexing_loses_no_behaviour : forall s p b', Proofs.PubSubIdx.CountInv s -> step (nbase s) p = Some b' ->
+  exists q s', nstep s q = Some s' /\ nbase s' = b' /\ p = match q with Sender p | Sub _ p => p end.
+Proof. exact Proofs.PubSubIdx.indexing_is_complete. Qed.
+Print Assumptions C06_indexing_loses_no_behaviour.
+
+(* For every Send that returns n: when it is about to publish the pong count (S9) and while it waits for the pongs (S10, after
+   which it returns n), exactly n DISTINCT subscriber indices hold a receipt of this Send's round ... *)
+Theorem C06_send_returns_number_of_distinct_receivers : forall senders n sched,
+  let s := nrun (ninit senders n) sched in
+  (sp (nbase s) = S9 \/ sp (nbase s) = S10) ->
+  length (receivers_of_round s) = v (nbase s) sent.
+Proof. exact Proofs.PubSubIdx.idx_send_returns_number_of_distinct_receivers. Qed.
+Print Assumptions C06_send_returns_number_of_distinct_receivers.
+
+(* ... and the message was received exactly n times in all (the receipts of the round summed over ALL subscribers). *)
+Theorem C06_message_received_exactly_n_times : forall senders n sched,
+  let s := nrun (ninit senders n) sched in
+  (sp (nbase s) = S9 \/ sp (nbase s) = S10) ->
+  Proofs.PubSubIdx.receipts_of_round s = v (nbase s) sent.
+Proof. exact Proofs.PubSubIdx.idx_message_received_exactly_n_times. Qed.
+Print Assumptions C06_message_received_exactly_n_times.
+
+(* Instances of the tagged theorems for EVERY subscription x (at any index i) of an indexed run. *)
+Theorem C06_idx_contiguous_run_of_one_order : forall senders others sched i x,
+  nth_error (nsubs (nrun (ninit senders (S others)) sched)) i = Some x ->
+  exists a, rev (slog x) = seq a (length (slog x)).
+Proof. exact Proofs.PubSubIdx.idx_contiguous. Qed.
+Print Assumptions C06_idx_contiguous_run_of_one_order.
+
+Theorem C06_idx_no_duplicate : forall senders others sched i x,
+  nth_error (nsubs (nrun (ninit senders (S others)) sched)) i = Some x -> NoDup (slog x).
+Proof. exact Proofs.PubSubIdx.idx_no_duplicate. Qed.
+Print Assumptions C06_idx_no_duplicate.
+
+Theorem C06_idx_no_stale : forall senders others sched i x,
+  let s := nrun (ninit senders (S others)) sched in
+  nth_error (nsubs s) i = Some x -> Forall (fun n => subat x < n <= nround s) (slog x).
+Proof. exact Proofs.PubSubIdx.idx_no_stale. Qed.
+Print Assumptions C06_idx_no_stale.
+
+Theorem C06_idx_established_included : forall senders others sched i x,
+  let s := nrun (ninit senders (S others)) sched in
+  nth_error (nsubs s) i = Some x ->
+  (sp (nbase s) = S8 \/ sp (nbase s) = S9 \/ sp (nbase s) = S10) ->
+  standing (pc x) = true -> subat x < nround s -> hd_error (slog x) = Some (nround s).
+Proof. exact Proofs.PubSubIdx.idx_established_included. Qed.
+Print Assumptions C06_idx_established_included.
